@@ -96,13 +96,19 @@ def h_cmp_bool(a: Optional[bool], b: Optional[bool], x: Optional[bool], y: Optio
     if form == 'vs' and x is None:
         return True      # True & None: Python raises
     v = Vector(vl)
+    if form == 'sv' and x is None:
+        return True
     r = _call(f, form, v, wl, x)
+    if not isinstance(r, Vector): return True      # e.g. True & vector handled by bool itself: no vector operation happened
     got = list(r)
     for i in range(2):
-        p = vl[i]; qv = x if form == 'vs' else wl[i]
-        if form == 'vs' and qv is None and p is not None:
+        p = vl[i]; qv = x if form in ('vs', 'sv') else wl[i]
+        if form in ('vs', 'sv') and qv is None and p is not None:
             continue     # Python raises for True & None; serif's answer is unconstrained here
-        want = False if (p is None or qv is None) else bool(f(p, qv))
+        if form in ('sv', 'lv'):
+            want = False if (p is None or qv is None) else bool(f(qv, p))
+        else:
+            want = False if (p is None or qv is None) else bool(f(p, qv))
         if got[i] is not want: return H.fail('%s[%s] %r vs %r at %d: %r, expected %r' % (op, form, vl, (x if form == 'vs' else wl), i, got[i], want))
     sch = r.schema()
     if sch.kind is not bool or sch.nullable: return H.fail('logical result typed %r' % (sch,))
@@ -336,7 +342,7 @@ def obligations(tier):
                                 bounds='%d-element operands of unbounded symbolic Optional[int]: every None placement on both sides' % n,
                                 smoke=[[1, None, 3, None, 2, 3, 4, n]]))
     for op in ('and', 'or', 'xor'):
-        for form in ('vv', 'vs', 'vl'):
+        for form in ('vv', 'vs', 'vl', 'sv', 'lv'):
             obs.append(dict(name='logic[%s,%s]' % (op, form), fn='h_cmp_bool', config={'op': op, 'form': form}, budget=60 if q else 300,
                             bounds='2-element operands of symbolic Optional[bool], one position optionally a small int', smoke=[[True, None, False, True, 0]]))
     for op in ('eq', 'ne', 'lt', 'le', 'gt', 'ge'):
